@@ -111,8 +111,9 @@ impl FuncResolve for ExistingArrayWithParenthesis {
         name: Name,
         args: Expressions,
     ) -> Result<Expression, LintErrorPos> {
-        // convert args
-        let converted_args = args.convert_in(ctx, extra.element)?;
+        // convert args: the subscripts are ordinary expressions, whatever the array element is used for
+        // (an assignment target, the owner of a property)
+        let converted_args = args.convert_in(ctx, ExprContext::Default)?;
         // convert name
         let VariableInfo {
             expression_type, ..
